@@ -17,43 +17,47 @@ CONSTANTS GConfigs,   \* set of configuration records
           MaxOps,     \* operations per behaviour
           MaxDay,     \* simulated day changes per behaviour (daily rule)
           GFams,      \* log files a record may be sent to ({""} = the single writer)
-          GBurst      \* size tuples of the bursts / of the records queued at Close ({} = none)
+          GBurst,     \* size tuples of the bursts / of the records queued at Close ({} = none)
+          GPrefixes   \* size tuples written (one barriered write each) before the enumerated operations ({<<>>} = none)
 
-VARIABLES hist, cfg, nday, fin
+VARIABLES hist, cfg, nday, fin, base    \* base = Len(hist) after init and prefix
 
-gvars == <<hist, cfg, nday, fin>>
+gvars == <<hist, cfg, nday, fin, base>>
+
+PrefixOps(p) == [i \in 1..Len(p) |-> [op |-> "write", size |-> p[i], fam |-> CHOOSE f \in GFams : TRUE]]
 
 GInit == /\ cfg \in GConfigs
-         /\ hist = <<[op |-> "init", cfg |-> cfg]>>
+         /\ \E p \in GPrefixes : hist = <<[op |-> "init", cfg |-> cfg]>> \o PrefixOps(p)
+         /\ base = Len(hist)
          /\ nday = 0 /\ fin = FALSE
 
-GWrite(s, f) == /\ ~fin /\ Len(hist) <= MaxOps
+GWrite(s, f) == /\ ~fin /\ Len(hist) - base < MaxOps
                 /\ hist' = Append(hist, [op |-> "write", size |-> s, fam |-> f])
-                /\ UNCHANGED <<cfg, nday, fin>>
+                /\ UNCHANGED <<cfg, nday, fin, base>>
 
 \* several writes with no barrier between them
-GBurstOp(b, f) == /\ ~fin /\ Len(hist) <= MaxOps
+GBurstOp(b, f) == /\ ~fin /\ Len(hist) - base < MaxOps
                   /\ hist' = Append(hist, [op |-> "burst", sizes |-> b, fam |-> f])
-                  /\ UNCHANGED <<cfg, nday, fin>>
+                  /\ UNCHANGED <<cfg, nday, fin, base>>
 
 \* Close with these records still queued
-GCloseQ(b, f) == /\ ~fin /\ Len(hist) = MaxOps + 1
+GCloseQ(b, f) == /\ ~fin /\ Len(hist) - base = MaxOps
                  /\ hist' = Append(hist, [op |-> "closeq", sizes |-> b, fam |-> f])
                  /\ fin' = TRUE
-                 /\ UNCHANGED <<cfg, nday>>
+                 /\ UNCHANGED <<cfg, nday, base>>
 
 \* a day change directly after another one, or as the last operation, shows nothing new
-GDay == /\ ~fin /\ Len(hist) < MaxOps
+GDay == /\ ~fin /\ Len(hist) - base < MaxOps - 1
         /\ cfg.rule = "daily" /\ nday < MaxDay
         /\ hist[Len(hist)].op # "daychange"
         /\ hist' = Append(hist, [op |-> "daychange"])
         /\ nday' = nday + 1
-        /\ UNCHANGED <<cfg, fin>>
+        /\ UNCHANGED <<cfg, fin, base>>
 
-GClose == /\ ~fin /\ Len(hist) = MaxOps + 1
+GClose == /\ ~fin /\ Len(hist) - base = MaxOps
           /\ hist' = Append(hist, [op |-> "close"])
           /\ fin' = TRUE
-          /\ UNCHANGED <<cfg, nday>>
+          /\ UNCHANGED <<cfg, nday, base>>
 
 GNext == \/ \E s \in GSizes, f \in GFams : GWrite(s, f)
          \/ \E b \in GBurst, f \in GFams : GBurstOp(b, f) \/ GCloseQ(b, f)
